@@ -82,7 +82,7 @@
 //!   nt.PrimInt.signed_shr a n | U::arithmetic_shr
 //!   nt.PrimInt.swap_bytes / to_be / from_be a | U::try_from_be_slice(reversed(to_be_bytes_vec)) (Option) [unwrap]
 //!   nt.PrimInt.to_le / from_le a | a       nt.PrimInt.reverse_bits a | U::reverse_bits
-//!   nt.PrimInt.pow a n (u32) | U::pow(a, U::from(n as u32))
+//!   nt.PrimInt.pow a n (u32) | U::pow(a, e) with e = U::try_from(n as u32); `unrepresentable-exponent` when n does not fit
 //!
 //! num-integer (`ni.<method>`, args `a b` unless noted):
 //!   ni.div_floor | U::wrapping_div   ni.mod_floor | U::wrapping_rem   ni.gcd | U::gcd
@@ -860,7 +860,15 @@ fn run_nt_prim<const B: usize, const L: usize>(p: &[&str]) -> String {
         "PrimInt.unsigned_shr" => {
             fi!(h(&<U<B, L> as nt::PrimInt>::unsigned_shr(a, n)), h(&U::wrapping_shr(a, n as usize)))
         }
-        "PrimInt.pow" => fi!(h(&<U<B, L> as nt::PrimInt>::pow(a, n)), h(&U::pow(a, U::<B, L>::from(n)))),
+        // the inherent `pow` takes a `Uint` exponent: when `n` is not representable at this width the
+        // I side says so, and the driver judges F against the value `a^n mod 2^BITS` instead
+        "PrimInt.pow" => fi!(
+            h(&<U<B, L> as nt::PrimInt>::pow(a, n)),
+            match <U<B, L> as TryFrom<u32>>::try_from(n) {
+                Ok(e) => h(&U::pow(a, e)),
+                Err(_) => "unrepresentable-exponent".to_string(),
+            }
+        ),
         _ => bad(),
     }
 }
